@@ -444,40 +444,42 @@ fn apply(op: Op) {
             }
         },
         #[cfg(feature = "weak")]
-        Code::UpgradeExpectPanic => {
+        Code::UpgradeExpectPanic | Code::DupWeakExpectPanic => {
             let target = c.model.borrow().wvars[a as usize].unwrap();
             let WRef::Obj(t) = target else { panic!("bad target") };
-            // find a var holding the target to observe through the public API
-            let hv = (0..MAXV).find(|j| c.model.borrow().vars[*j] == Some(t)).expect("no handle to observe") as u8;
-            let pre = observe(hv);
-            let r = {
-                let w = c.wvars[a as usize].borrow();
-                catch_unwind(AssertUnwindSafe(|| w.as_ref().unwrap().upgrade()))
+            let (addr, box_alive) = {
+                let m = c.model.borrow();
+                (m.objs[t as usize].addr, m.objs[t as usize].box_alive())
             };
-            match r {
-                Ok(x) => {
-                    v!("C16", "P-sat", "upgrade at the maximum strong count ({}) did not panic", pre.0);
-                    std::mem::forget(x);
-                },
-                Err(_) => check_unchanged(hv, t, pre, "upgrade"),
-            }
-        },
-        #[cfg(feature = "weak")]
-        Code::DupWeakExpectPanic => {
-            let target = c.model.borrow().wvars[a as usize].unwrap();
-            let WRef::Obj(t) = target else { panic!("bad target") };
-            let hv = (0..MAXV).find(|j| c.model.borrow().vars[*j] == Some(t)).expect("no handle to observe") as u8;
-            let pre = observe(hv);
-            let r = {
-                let w = c.wvars[a as usize].borrow();
-                catch_unwind(AssertUnwindSafe(|| w.as_ref().unwrap().clone()))
+            let obs = |w: &Weak<Node>| (w.strong_count(), w.weak_count(), if box_alive { Some(unsafe { hk::snapshot_at(addr) }) } else { None });
+            let wg = c.wvars[a as usize].borrow();
+            let w = wg.as_ref().unwrap();
+            let pre = obs(w);
+            let what = if op.code == Code::UpgradeExpectPanic { "upgrade" } else { "Weak::clone" };
+            let panicked = if op.code == Code::UpgradeExpectPanic {
+                match catch_unwind(AssertUnwindSafe(|| w.upgrade())) {
+                    Ok(x) => {
+                        std::mem::forget(x);
+                        false
+                    },
+                    Err(_) => true,
+                }
+            } else {
+                match catch_unwind(AssertUnwindSafe(|| w.clone())) {
+                    Ok(x) => {
+                        std::mem::forget(x);
+                        false
+                    },
+                    Err(_) => true,
+                }
             };
-            match r {
-                Ok(x) => {
-                    v!("C16", "P-sat", "Weak::clone at the maximum weak count ({}) did not panic", pre.1);
-                    std::mem::forget(x);
-                },
-                Err(_) => check_unchanged(hv, t, pre, "Weak::clone"),
+            if !panicked {
+                v!("C16", "P-sat", "{} at the maximum count (strong {}, weak {}) did not panic", what, pre.0, pre.1);
+            } else {
+                let post = obs(w);
+                if post != pre {
+                    v!("C16", "P-sat", "{} at saturation of object #{} changed (strong, weak, header) {:?} -> {:?}", what, t, pre, post);
+                }
             }
         },
         #[allow(unreachable_patterns)]
@@ -576,6 +578,7 @@ fn op_try_unwrap(a: u8) {
                 let mut m = c.model.borrow_mut();
                 m.objs[id as usize].moved_out = true;
                 m.objs[id as usize].buffered = false;
+                m.inflight.pop();
             }
             drain_alloc();
             if sc != 1 {
@@ -584,8 +587,6 @@ fn op_try_unwrap(a: u8) {
             if !node.canary_ok() || node.id != id {
                 v!("C13", "P-unwrap", "try_unwrap returned a corrupted value for object #{}", id);
                 std::mem::forget(node);
-                let mut m = c.model.borrow_mut();
-                m.inflight.pop();
                 return;
             }
             match alloc::block(addr) {
@@ -596,10 +597,6 @@ fn op_try_unwrap(a: u8) {
                 v!("C13", "P-unwrap", "try_unwrap returned Ok but the released allocation of object #{} is still buffered", id);
             }
             // The value now belongs to the harness: drop it (its fields release their handles)
-            {
-                let mut m = c.model.borrow_mut();
-                m.inflight.pop();
-            }
             let _f = FrameGuard::new(Frame::Api { collect_like: false, collecting: false });
             let depth = c.stack.borrow().len();
             let r = catch_unwind(AssertUnwindSafe(move || drop(node)));
@@ -649,7 +646,6 @@ fn op_new_cyclic(a: u8, script: Closure) {
         (m.objs.len() - 1) as u8
     };
     let before = state::executions_count().unwrap_or(0);
-    let side_before = alloc::live_side_count();
     let closure_ran = Cell::new(false);
     let saved_to_w0 = Cell::new(false);
     let r = {
@@ -659,6 +655,10 @@ fn op_new_cyclic(a: u8, script: Closure) {
             Cc::new_cyclic(|w: &Weak<Node>| {
                 closure_ran.set(true);
                 drain_alloc();
+                // The automatic collection (if any) run by new_cyclic is over by the time the closure is called
+                if let Some(Frame::Api { collecting, .. }) = c.stack.borrow_mut().last_mut() {
+                    *collecting = false;
+                }
                 let _cf = FrameGuard::new(Frame::Closure(id));
                 // The allocation is the most recently tagged box
                 let addr = last_tagged_box();
@@ -668,6 +668,7 @@ fn op_new_cyclic(a: u8, script: Closure) {
                     o.addr = addr;
                     o.boxed = true;
                     o.size = alloc::block(addr).map_or(0, |b| b.size);
+                    o.side = unsafe { hk::snapshot_at(addr) }.metadata_addr;
                     m.inflight_weak.push(id);
                 }
                 let after = state::executions_count().unwrap_or(0);
@@ -682,12 +683,8 @@ fn op_new_cyclic(a: u8, script: Closure) {
                     std::mem::forget(cc);
                 }
                 crash_point(CpKind::Closure);
-                let node = Node::new(id);
                 match script {
-                    Closure::Nop | Closure::TryUpgrade => {},
-                    Closure::KeepWeakInSelf => {
-                        *node.wcell.borrow_mut() = Some(w.clone());
-                    },
+                    Closure::Nop | Closure::TryUpgrade | Closure::KeepWeakInSelf => {},
                     Closure::SaveWeakToW0 => {
                         if c.wvars[0].borrow().is_none() {
                             *c.wvars[0].borrow_mut() = Some(w.clone());
@@ -702,9 +699,13 @@ fn op_new_cyclic(a: u8, script: Closure) {
                     },
                     Closure::Collect => do_collect(),
                     Closure::Panic => {
-                        std::mem::forget(node); // never constructed as far as the model is concerned
                         std::panic::panic_any(CLOSURE_PANIC);
                     },
+                }
+                // The value is built last: nothing can unwind once it exists
+                let node = Node::new(id);
+                if script == Closure::KeepWeakInSelf {
+                    *node.wcell.borrow_mut() = Some(w.clone());
                 }
                 {
                     let mut m = c.model.borrow_mut();
@@ -732,6 +733,7 @@ fn op_new_cyclic(a: u8, script: Closure) {
     match r {
         Ok(cc) => {
             let addr = hk::box_addr(&cc);
+            cc.home.set(&*cc as *const Node as usize);
             {
                 let mut m = c.model.borrow_mut();
                 let o = &mut m.objs[id as usize];
@@ -788,12 +790,17 @@ fn op_new_cyclic(a: u8, script: Closure) {
                     other => v!("C14", "P-cyclic", "new_cyclic unwound but the allocation made for the value was not released ({:?})", other),
                 }
                 let weaks = c.model.borrow().weak_count(id as usize);
-                let side_now = alloc::live_side_count();
-                if weaks == 0 && side_now != side_before {
-                    v!("C14", "P-cyclic", "new_cyclic unwound and no Weak was saved, but its side record was not released");
-                }
-                if weaks > 0 && side_now != side_before + 1 {
-                    v!("C14", "P-cyclic", "new_cyclic unwound with {} saved Weak(s) but the side record count went {} -> {}", weaks, side_before, side_now);
+                let side = c.model.borrow().objs[id as usize].side;
+                match alloc::block(side) {
+                    Some(b) if b.kind == alloc::Kind::Side => {
+                        if weaks == 0 && !b.freed {
+                            v!("C14", "P-cyclic", "new_cyclic unwound and no Weak was saved, but its side record was not released");
+                        }
+                        if weaks > 0 && b.freed {
+                            v!("C14", "P-cyclic", "new_cyclic unwound with {} saved Weak(s) but their side record was released", weaks);
+                        }
+                    },
+                    other => v!("C14", "P-cyclic", "the side record of the new_cyclic allocation is not a crate side allocation: {:?}", other),
                 }
             } else {
                 // The panic came from the automatic collection run before the closure: nothing of the new
@@ -1036,6 +1043,10 @@ fn walk(cc: &Cc<Node>, id: u8, w: &mut Walk, faults: u32) -> bool {
     let p3 = <Cc<Node> as std::borrow::Borrow<Node>>::borrow(cc) as *const Node as usize;
     if p1 != p2 || p1 != p3 || p1 % std::mem::align_of::<Node>() != 0 || p1 < addr || p1 + std::mem::size_of::<Node>() > addr + alloc::block(addr).map_or(0, |b| b.size) {
         v!("C20", "P-ptr", "Deref/AsRef/Borrow of object #{} give {:#x}/{:#x}/{:#x} (box at {:#x})", id, p1, p2, p3, addr);
+        return false;
+    }
+    if node.home.get() != p1 {
+        v!("C20", "P-ptr", "object #{} moved: created at {:#x}, now dereferences to {:#x}", id, node.home.get(), p1);
         return false;
     }
     if node.fin_script.get() != mfin || node.drop_script.get() != mdrop {
@@ -1447,6 +1458,8 @@ pub struct Summary {
     pub g: bool,
     pub wvars: [u8; MAXW], // 0 empty, 1 dangling, 2 object
     pub wvar_target: [u8; MAXW],
+    pub wvar_strong: [u32; MAXW],
+    pub wvar_weak: [u32; MAXW],
     pub cvars: [bool; MAXC],
     pub nactions: u8,
     pub faults: u8,
@@ -1482,6 +1495,10 @@ pub fn summary() -> Summary {
             Some(WRef::Obj(t)) => {
                 s.wvars[j] = 2;
                 s.wvar_target[j] = t;
+                let o = &m.objs[t as usize];
+                let alive = o.boxed && o.value_alive() && !o.freed && !o.moved_out && !o.cyclic_failed;
+                s.wvar_strong[j] = if alive { m.count(t as usize) } else { 0 };
+                s.wvar_weak[j] = m.weak_count(t as usize);
             },
         }
     }
@@ -1829,9 +1846,8 @@ pub fn enabled(s: &Summary, cfg: &LensCfg, out: &mut Vec<Op>) {
         }
         let w8 = w as u8;
         // strong/weak counts of the target if a var holds it
-        let tv = if s.wvars[w] == 2 { (0..nv).find(|j| s.vars[*j].some && s.vars[*j].id == s.wvar_target[w]) } else { None };
-        let sat_strong = tv.map_or(false, |j| s.vars[j].strong >= STRONG_MAX);
-        let sat_weak = tv.map_or(false, |j| s.vars[j].weak >= WEAK_MAX);
+        let sat_strong = s.wvars[w] == 2 && s.wvar_strong[w] >= STRONG_MAX;
+        let sat_weak = s.wvars[w] == 2 && s.wvar_weak[w] >= WEAK_MAX;
         if let Some(e) = ev {
             if on(Code::Upgrade) {
                 if sat_strong && on(Code::UpgradeExpectPanic) {
